@@ -2,9 +2,11 @@
 """Writes MANIFEST.json from props_table.py (kept in sync by construction)."""
 import json, os, sys
 sys.path.insert(0, os.path.dirname(os.path.abspath(__file__)))
-from props_table import PROPS, MANIFEST_TEXT, NOT_APPLICABLE
+from props_table import PROPS, MANIFEST_TEXT, NOT_APPLICABLE, PENDING
 checks = []
 for pid in sorted(PROPS):
+    if pid in PENDING:
+        continue
     t = MANIFEST_TEXT[pid]
     checks.append({
         "property_id": pid,
@@ -30,7 +32,7 @@ m = {
     "engines": [{
         "name": "lean4-proof+correspondence",
         "path": "/verif/check",
-        "serves_properties": sorted(PROPS),
+        "serves_properties": sorted(p for p in PROPS if p not in PENDING),
         "kind_free_text": "Lean 4 theorems about a hand-written executable model (lean/ScrutModel), tied to /repo's current tree on every run by a differential correspondence harness (harness/) that drives the real scrut code and the compiled Lean model on the same cases, plus direct property oracles on the real code for the failing-input search",
     }],
     "checks": checks,
